@@ -4,6 +4,8 @@ package main
 
 import (
 	"fmt"
+	"html"
+	"regexp"
 	mrand "math/rand"
 	"net/url"
 	"strings"
@@ -13,7 +15,8 @@ import (
 )
 
 var vpWhitelists = map[string][]string{"none": nil, "exact": {"good.example.com"}, "dotted": {".example.com"}, "wild": {"*.example.com"},
-	"exact_port": {"good.example.com:8443"}, "exact_anyport": {"good.example.com:*"}}
+	"exact_port": {"good.example.com:8443"}, "exact_anyport": {"good.example.com:*"},
+	"exact_p80": {"good.example.com:80"}, "exact_p443": {"good.example.com:443"}}
 
 func vpRedirectText(voc *vpVocab, seq []string) string {
 	t := voc.text(seq)
@@ -27,6 +30,21 @@ func vpRedirectTokens(voc *vpVocab, s string) []string {
 	s = strings.ReplaceAll(s, "%C2%A0", "{NBSP}")
 	s = strings.ReplaceAll(s, "%20", " ")
 	return voc.tokens(s)
+}
+
+var vpHTMLTargetRe = regexp.MustCompile(`(?is)(?:action|href)\s*=\s*"([^"]*)"|<input[^>]*name\s*=\s*"rd"[^>]*value\s*=\s*"([^"]*)"|<input[^>]*value\s*=\s*"([^"]*)"[^>]*name\s*=\s*"rd"`)
+
+// vpHTMLTargets: link / form-action / hidden-rd values of a page, HTML-unescaped
+func vpHTMLTargets(body string) []string {
+	var out []string
+	for _, m := range vpHTMLTargetRe.FindAllStringSubmatch(body, -1) {
+		for _, g := range m[1:] {
+			if g != "" {
+				out = append(out, html.UnescapeString(g))
+			}
+		}
+	}
+	return out
 }
 
 func init() {
@@ -51,6 +69,15 @@ func init() {
 				return
 			}
 			defer w.close()
+			// links every page carries whatever the input is (style sheets, the project link in the footer)
+			static := map[string]bool{}
+			for _, pg := range []*vpResp{
+				w.do(vpReq{Target: w.prefix() + "/sign_in?rd=%2F", Host: "app.internal.test"}),
+				w.do(vpReq{Target: w.prefix() + "/callback?code=x&state=n%3A%2F", Host: "app.internal.test"})} {
+				for _, tgt := range vpHTMLTargets(string(pg.Body)) {
+					static[tgt] = true
+				}
+			}
 			for k, c := range cs {
 				seq := vpSeq(c.In["s"])
 				text := vpRedirectText(voc, seq)
@@ -90,6 +117,30 @@ func init() {
 						x := w.do(vpReq{Target: w.prefix() + "/sign_out", Host: "app.internal.test", Header: [][2]string{{"X-Auth-Request-Redirect", text}}})
 						if !strings.ContainsAny(text, "\n\x01\t") {
 							em["xarr"] = vpRedirectTokens(voc, x.Location)
+						}
+						// error and sign-in pages: every link, form action and hidden rd they carry
+						pages := map[string]*vpResp{}
+						// callback that fails before the state's redirect is validated (no CSRF cookie; CSRF cookie but a bad code)
+						pages["cberr_nocsrf"] = w.do(vpReq{Target: w.prefix() + "/callback?" + url.Values{"code": {"x"}, "state": {"nonce:" + text}}.Encode(), Host: "app.internal.test"})
+						j2 := vpNewJar()
+						s2 := w.do(vpReq{Target: w.prefix() + "/start?rd=" + url.QueryEscape(text), Host: "app.internal.test"})
+						j2.applyAll(s2)
+						if _, state, err := w.idp.authorize(s2.Location, "alice"); err == nil {
+							pages["cberr_badcode"] = w.do(vpReq{Target: w.prefix() + "/callback?" + url.Values{"code": {"not-a-code"}, "state": {state}}.Encode(), Cookie: j2.header(), Host: "app.internal.test"})
+							pages["cberr_idperror"] = w.do(vpReq{Target: w.prefix() + "/callback?" + url.Values{"error": {"access_denied"}, "state": {state}}.Encode(), Cookie: j2.header(), Host: "app.internal.test"})
+						}
+						pages["signin_page"] = w.do(vpReq{Target: w.prefix() + "/sign_in?rd=" + url.QueryEscape(text), Host: "app.internal.test"})
+						pages["signin_bad_pw"] = w.do(vpReq{Method: "POST", Target: w.prefix() + "/sign_in", Body: url.Values{"username": {"hpuser"}, "password": {"wrong"}, "rd": {text}}.Encode(), Form: true, Host: "app.internal.test"})
+						for name, pg := range pages {
+							for k, tgt := range vpHTMLTargets(string(pg.Body)) {
+								if strings.HasPrefix(tgt, w.prefix()+"/") || tgt == "" || static[tgt] {
+									continue // the page's own fixed same-site endpoints
+								}
+								em[fmt.Sprintf("%s#%d", name, k)] = vpRedirectTokens(voc, tgt)
+							}
+							if pg.Location != "" && !strings.HasPrefix(pg.Location, w.idp.srv.URL) {
+								em[name+"#loc"] = vpRedirectTokens(voc, pg.Location)
+							}
 						}
 						obs["emitted"] = em
 						obs["input"] = vpRedirectTokens(voc, text)
